@@ -43,20 +43,25 @@ def host_helpers(ctx, rule, n):
     leaf = F.is_param("hostname")
     for role, pred, w in (("lower", NM.is_lower, "LeMonde.FR"), ("idna", IDNA, "xn--tlrama-bvab.fr"), ("ctrl-strip", CTRL, "lemonde\x00.fr"), ("strip", STRIP, " lemonde.fr ")):
         ctx.ob(rule, "normalize_hostname/" + role, not F.unguarded_paths(t, leaf, pred), "normalize_hostname does not apply %s on every path" % role, site, witness=w)
-    for amp, pat in ((True, NM.SUB_AMP_RE), (False, NM.SUB_RE)):
-        ts = F.simplify(t, {"normalize_amp": amp})
-        subs = F.find_nodes(ts, NM.is_subdomain_sub) + [x for x in P.subterms(ts) if x[0] == "method" and x[1] == "sub" and x[2][0] == "global" and x[2][1] in (NM.SUB_RE, NM.SUB_AMP_RE)]
-        pats = set()
-        for s in subs:
-            pats |= NM.sub_patterns(s)[0] if NM.is_subdomain_sub(s) else {s[2][1]}
-        ctx.ob(rule, "normalize_hostname/pattern/normalize_amp=%s" % amp, pats == {pat}, "normalize_hostname(normalize_amp=%s) uses %s" % (amp, sorted(p.rpartition('.')[2] for p in pats)), site, witness="amp.lemonde.fr")
-        sl = F.find_nodes(ts, NM.is_amp_prefix_slice, data_only=True)
-        ctx.ob(rule, "normalize_hostname/amp-prefix/normalize_amp=%s" % amp, bool(sl) == amp, "normalize_hostname(normalize_amp=%s) %s a leading 'amp-'" % (amp, "does not strip" if amp else "strips"), site, witness="amp-x.lemonde.fr")
-    oh = NM.host_order(F.simplify(t, {"normalize_amp": True}), leaf)
-    ou = NM.host_order(F.simplify(n.host, {"normalize_amp": True, "strip_irrelevant_subdomains": True}), U.is_attr("hostname"))
-    ctx.ob(rule, "amp-prefix-vs-subdomain-order-agrees", oh == ou and oh is not None,
-           "normalize_hostname applies the 'amp-' strip and the sub-domain substitution in the order '%s' but normalize_url in the order '%s': amp-www.example.com gets two different hosts" % (oh, ou),
-           site, witness="http://amp-www.example.com/a", sample="helper: %s, url function: %s" % (oh, ou))
+    # the two non-commuting deletions ('amp-' prefix, irrelevant labels) are done by the helper normalize_url uses
+    hh = F.find_nodes(t, NM.is_host_helper, data_only=True)
+    ctx.ob(rule, "normalize_hostname/uses-the-shared-host-helper", bool(hh) and not F.unguarded_paths(t, leaf, NM.is_host_helper),
+           "normalize_hostname does not strip the 'amp-' prefix and the irrelevant sub-domains with strip_irrelevant_parts_from_hostname, the helper normalize_url uses: the two can drift apart (amp-www.example.com)", site, witness="http://amp-www.example.com/a")
+    for hc in hh:
+        kw = NM.helper_kwargs(hc)
+        ctx.ob(rule, "normalize_hostname/helper-forwards-normalize_amp", kw.get("normalize_amp") == ("param", "normalize_amp") and kw.get("strip_irrelevant_subdomains") in (None, ("const", True)),
+               "normalize_hostname does not forward normalize_amp to the host helper (or switches the sub-domain removal off)", site, witness="amp.lemonde.fr")
+    uh = F.find_nodes(n.host, NM.is_host_helper, data_only=True)
+    ctx.ob(rule, "amp-prefix-vs-subdomain-order-agrees", bool(uh) and bool(hh), "normalize_url and normalize_hostname do not share the host helper: amp-www.example.com can get two different hosts", site, witness="http://amp-www.example.com/a")
+    # punycode after the helper in both ('amp-' hides the 'xn--' header)
+    for what, term in (("normalize_hostname", t), ("normalize_url", n.host)):
+        for dn in F.find_nodes(term, IDNA, data_only=True):
+            ctx.ob(rule, "%s/idna-after-host-helper" % what, bool(F.find_nodes(dn[2][0], NM.is_host_helper, data_only=True)) if dn[2] else False,
+                   "%s decodes punycode before the 'amp-' prefix is removed: amp-xn--caf-dma.fr keeps its punycode label" % what, site, witness="amp-xn--caf-dma.fr")
+    import json as _json
+    from .c04 import SPEC as _SPEC4
+    _spec = _json.load(open(_SPEC4))
+    NM.rule_host_helper(ctx, rule + "h", _spec["subdomain_labels"], _spec["subdomain_labels_amp"])
     # get_normalized_hostname
     ref, rets = helper_terms(ctx, "normalize_url", "get_normalized_hostname", atomic_extra={"ural.normalize_url.normalize_hostname"})
     site = nm.site(ref.node)
@@ -130,7 +135,7 @@ def fingerprint_helpers(ctx, rule):
             ctx.ob(rule, "get_fingerprinted_hostname/forwards-strip_suffix", kw.get("strip_suffix") == ("param", "strip_suffix"), "get_fingerprinted_hostname does not forward strip_suffix", site)
 
 
-def stems_variants(ctx, rule):
+def stems_variants(ctx, rule, string_forms=True):
     ctx.rule(rule, "each *_lru_stems variant calls its own URL function with unsplit=False, forwards **kwargs and the url, and feeds the result to the same lru_stems_from_parsed_url as lru_stems, passing suffix_aware through; the URL functions' split and string forms come from one tuple")
     repo = ctx.repo
     st = repo.mod("lru.stems")
@@ -167,6 +172,8 @@ def stems_variants(ctx, rule):
         inner = rets[0].term[2][0]
         ctx.ob(rule, "lru_stems/parses-with-ensured-protocol", U.is_parse(inner) and bool(F.find_nodes(inner, lambda x: x[0] in ("inl", "call") and x[1] == "ural.ensure_protocol.ensure_protocol")),
                "lru_stems does not parse ensure_protocol(url) with the standard parser", site)
+    if not string_forms:
+        return
     # normalize_url: string form derives from the same tuple
     nref, nex, nrets = U.extract(ctx, "normalize_url", "normalize_url")
     nret, nt = U.split_result(ctx, nrets, "normalize_url")
